@@ -143,12 +143,38 @@ Definition nmono_eqb (a b : nmono) : bool :=
   && permb factor_eqb (nfactors a) (nfactors b)
   && nodupb (nsummed a) && permb String.eqb (nsummed a) (nsummed b).
 
+(** Subtraction reaches the graph as a factor [-1] (desugaring), the specification keeps a sign:
+    both are brought to the same shape by moving every literal factor [-1] into the sign. *)
+Definition is_m1 (f : factor R) : bool :=
+  match f with
+  | FInt z => z =? -1
+  | _ => false
+  end.
+
+Fixpoint m1_parity (fs : list (factor R)) : bool :=
+  match fs with
+  | [] => false
+  | f :: r => xorb (is_m1 f) (m1_parity r)
+  end.
+
+Definition ncanon (m : nmono) : nmono :=
+  (xorb (nsign m) (m1_parity (nfactors m)), filter (fun f => negb (is_m1 f)) (nfactors m), nsummed m).
+
 (** THE CHECKER: the graph and the desugared expression have the same normal form. *)
 Definition graph_ok (d : dexpr R) (g : graph) : bool :=
   match nf_d d with
-  | Some a => permb nmono_eqb a (nf_g g)
+  | Some a => permb nmono_eqb (map ncanon a) (map ncanon (nf_g g))
   | None => false
   end.
+
+(** normal form of the SPECIFICATION of an assignment: its monomials, each summed over its own
+    indexes absent from the target *)
+Definition nf_spec (a : assignment R) : list nmono :=
+  map (fun m => (fst m, snd m, contracted (tgt_idx a) m)) (monomials (rhs a)).
+
+(** THE CHECKER against the specification itself (desugaring is bypassed). *)
+Definition graph_ok_spec (a : assignment R) (g : graph) : bool :=
+  permb nmono_eqb (map ncanon (nf_spec a)) (map ncanon (nf_g g)).
 
 End Syntax.
 
@@ -168,7 +194,12 @@ Arguments nf_i {R}.
 Arguments nf_g {R}.
 Arguments factor_eqb {R}.
 Arguments nmono_eqb {R}.
+Arguments is_m1 {R}.
+Arguments m1_parity {R}.
+Arguments ncanon {R}.
 Arguments graph_ok {R}.
+Arguments nf_spec {R}.
+Arguments graph_ok_spec {R}.
 
 (** * Meaning of a graph as a loop nest *)
 
